@@ -37,6 +37,12 @@ import (
 // the body; only then does the agent answer whatever request is outstanding
 // (an agent never interleaves a response into a record).
 //
+// Two more ways a client ends: a subscription request that the agent has read
+// but not answered when Close / the hang-up comes (the waiting call and Close
+// both see the handler), and Close from several goroutines at once, also while
+// the agent hangs up (free-running; every case ends with such a concurrent
+// Close if the script left the client open).
+//
 // Panics of client code are NOT recovered: "send on closed channel" or
 // "close of closed channel" in the reader goroutine kills the process and the
 // driver (crash_oracle) reports the case that was running.
